@@ -38,6 +38,12 @@
      U5  update() does not raise; it returns True only if every instance it started is running.
      U6  Listeners of Servers.changed are notified after the last change of an update: what they saw last is the
          final list of instances and their running state.
+     U7  server_connect refuses (sets server.error) a connection to a listening socket of a running instance: same
+         port and transport and the socket's address, or a loopback address when the socket is bound to the wildcard
+         or loopback of that family; a destination port on which no instance listens is never refused.  (The full
+         statement about self-connects is C23 / spec/SelfConnect; here the real instances' listen_addrs feed it.)
+     S4  to_json() reports is_running, listen_addrs, full_spec and whether there is a last_exception as the
+         attributes do.
 
    Events (see lib/vf/modenet.py).  Tokens: [t |-> "w"|"n"|"c"|"a", s |-> text, n |-> number].
      [k |-> "world", good |-> <<words "//hostname" built by the harness>>, goods |-> <<the same with a trailing "/">>,
@@ -48,7 +54,8 @@
      [k |-> "op", op |-> "set_mode"|"set_server"|"running"|"setup"|"release"|"make"|"istart"|"istop", ...]
      [k |-> "ret", err]      [k |-> "bind", gen, tp, host, req, port, res, hold, sid]      [k |-> "close", sid, gen]
      [k |-> "ext_bind"|"ext_free", tp, host, port]      [k |-> "changed", insts]      [k |-> "upd", res, exc, insts]
-     [k |-> "state", mode, server, psrun, busy, insts, alone, blocked]      [k |-> "end"]                           *)
+     [k |-> "state", mode, server, psrun, busy, insts, alone, blocked]      [k |-> "end"]
+     [k |-> "connect", host, port, tp, refused, err]                           *)
 EXTENDS Verif, TLC
 
 NoArg == {"regular", "transparent", "socks5", "dns"}
@@ -196,12 +203,15 @@ InstBad(m, x, managed, busy) ==
                  /\ IF sp.lhost = "" THEN socks[i].host \in Wild ELSE socks[i].host = sp.lhost
                  /\ socks[i].tp \in Protos(sp.tp) IN
   IF ~x.run /\ socks # <<>>
-  THEN <<"X02.socket_leak", IF x.gen \in m.ran THEN "stopped" ELSE "failed_start", socks[1].tp>>
+  THEN <<"X02.socket_leak", IF x.gen \in m.failed /\ x.gen \notin m.ran THEN "failed_start" ELSE "stopped", socks[1].tp>>
   ELSE IF x.run /\ socks = <<>> THEN <<"X02.running_without_socket">>
   ELSE IF x.addrs # (IF x.run THEN AddrsOf(socks) ELSE <<>>) THEN <<"X02.listen_addrs_mismatch", IF x.run THEN "running" ELSE "stopped">>
   ELSE IF x.run /\ ~fits THEN <<"X02.wrong_listen_address">>
   ELSE IF x.run /\ \E p \in Protos(sp.tp) : \A i \in 1..Len(socks) : socks[i].tp # p THEN <<"X02.transport_missing", sp.tp>>
   ELSE IF x.run /\ x.exc # "" THEN <<"X02.last_exception", "set_while_running">>
+  ELSE IF x.json.run # x.run \/ x.json.addrs # x.addrs \/ x.json.exc # (x.exc # "") \/ ~x.json.spec
+       THEN <<"X02.to_json_differs", IF x.json.run # x.run THEN "is_running" ELSE IF x.json.addrs # x.addrs THEN "listen_addrs"
+                                     ELSE IF ~x.json.spec THEN "full_spec" ELSE "last_exception">>
   ELSE IF managed /\ ~busy /\ ~x.run /\ x.gen \in m.failed /\ x.exc = "" THEN <<"X02.last_exception", "failed_start_not_recorded">>
   ELSE <<>>
 
@@ -227,7 +237,7 @@ StateBad(m, ev) ==
   ELSE IF d.op = "istart" /\ d.err # "" /\ av.gen \notin m.failed THEN <<"X02.start_result", "raised_without_cause">>
   ELSE IF d.op = "istop" /\ d.err = "" /\ (av.run \/ av.exc # "") THEN <<"X02.stop_result">>
   ELSE IF ~ev.busy /\ orphan # <<>>
-       THEN <<"X02.socket_leak", IF orphan[1].gen \in m.ran THEN "removed" ELSE "removed_failed_start", orphan[1].tp>>
+       THEN <<"X02.socket_leak", IF orphan[1].gen \in m.failed /\ orphan[1].gen \notin m.ran THEN "removed_failed_start" ELSE "removed", orphan[1].tp>>
   ELSE IF ~ev.busy /\ Brief(I) # m.lastchg THEN <<"X02.listeners_stale">>
   ELSE IF ~ev.busy /\ m.synced /\ \E i \in 1..Len(eff) : \A j \in 1..Len(I) : I[j].spec # eff[i]
        THEN <<"X02.instances_do_not_match_modes", "missing">>
@@ -260,7 +270,7 @@ MonStep(m, ev) ==
   IF m.bad # <<>> THEN m ELSE
   CASE ev.k = "world" -> [m EXCEPT !.w = [good |-> ev.good, goods |-> ev.goods, opt_host |-> ev.opt_host, opt_port |-> ev.opt_port, root |-> ev.root]]
     [] ev.k = "spec" ->
-         [m EXCEPT !.sp = Append(@, ev), !.wit = @ \cup SpecWit(m.w, ev),
+         [m EXCEPT !.sp = Append(@, [res |-> ev.res, tp |-> ev.tp, lhost |-> ev.lhost, lport |-> ev.lport]), !.wit = @ \cup SpecWit(m.w, ev),
                    !.bad = IF ev.id # Len(m.sp) + 1 THEN <<"X02.trace_malformed", "spec_id">> ELSE SpecBad(m.w, ev)]
     [] ev.k = "op" ->
          [m EXCEPT !.cur = ev, !.direct = [op |-> "none", err |-> ""], !.lastop = ev.op,
@@ -300,9 +310,28 @@ MonStep(m, ev) ==
                              \cup (IF ev.res = "ok" /\ \E f \in m.freed : f[1] = ev.tp /\ f[2] = ev.host /\ f[3] = ev.port /\ f[4] # ev.gen
                                    THEN {"port_reused_after_stop"} ELSE {}),
                    !.bad = IF ev.res = "EADDRINUSE" /\ ev.hold > 0 /\ ev.hold # ev.gen /\ ev.hold \notin lg
-                           THEN <<"X02.port_not_freed_before_start", IF ev.hold \in m.ran THEN "holder_removed" ELSE "holder_failed_start">>
+                           THEN <<"X02.port_not_freed_before_start", IF ev.hold \in m.failed /\ ev.hold \notin m.ran THEN "holder_failed_start" ELSE "holder_removed">>
                            ELSE <<>>]
     [] ev.k \in {"ext_bind", "ext_free"} -> [m EXCEPT !.lastop = ev.k]
+    [] ev.k = "connect" ->
+         \* mitmproxy must not connect to its own listening sockets (server_connect hook of the proxyserver addon)
+         LET mine == SelectSeq(m.open, LAMBDA s : s.gen \in Gens(m.listed))
+             loop4 == ev.host \in {"127.0.0.1", "localhost"}
+             loop6 == ev.host \in {"::1", "localhost"}
+             self == \E i \in 1..Len(mine) : /\ mine[i].port = ev.port /\ mine[i].tp = ev.tp
+                                              /\ \/ mine[i].host = ev.host
+                                                 \/ mine[i].host = "0.0.0.0" /\ loop4
+                                                 \/ mine[i].host = "::" /\ loop6
+                                                 \/ mine[i].host = "127.0.0.1" /\ loop4
+                                                 \/ mine[i].host = "::1" /\ loop6
+             nobody == \A i \in 1..Len(mine) : mine[i].port # ev.port IN
+         [m EXCEPT !.lastop = "connect",
+                   !.wit = @ \cup (IF self THEN {"self_connect_refused"} ELSE {}) \cup (IF nobody THEN {"other_connect_allowed"} ELSE {})
+                             \cup (IF self /\ ev.port >= 40000 THEN {"self_connect_ephemeral_port"} ELSE {}),
+                   !.bad = IF ev.err # "" THEN <<"X02.server_connect_raised", ev.err>>
+                           ELSE IF self /\ ~ev.refused THEN <<"X02.self_connect_allowed", ev.tp>>
+                           ELSE IF nobody /\ ev.refused THEN <<"X02.foreign_connect_refused">>
+                           ELSE <<>>]
     [] ev.k = "close" ->
          [m EXCEPT !.open = SelectSeq(@, LAMBDA s : s.sid # ev.sid),
                    !.freed = @ \cup {<<s.tp, s.host, s.port, s.gen>> : s \in {x \in ToSet(m.open) : x.sid = ev.sid}},
